@@ -142,6 +142,16 @@ func TestCheck(t *testing.T) {
 			}
 			run.Finish()
 		}
+		if rc, ok := d.Detail["redeliver"]; ok {
+			var c redeliverCase
+			b, _ := json.Marshal(rc)
+			json.Unmarshal(b, &c)
+			if fails, _ := newDeepWorld().runRedeliver(c.From, c.Split); len(fails) > 0 {
+				fmt.Println("REPRODUCED", fails)
+				run.Violate(ev.Violation{Scenario: d.Scenario, Oracle: d.Oracle, CaseID: d.CaseID, Detail: d.Detail})
+			}
+			run.Finish()
+		}
 		if name, ok := d.Detail["conc"].(string); ok {
 			var choices []int
 			if a, ok := d.Detail["choices"].([]interface{}); ok {
@@ -200,8 +210,8 @@ func TestCheck(t *testing.T) {
 		}
 	}
 	maxN, diffs, maxSeg := sizes(run.Tier)
-	states += extra["deep_histories"] + extra["conc_schedules"]
-	trans += extra["deep_histories"]*8 + extra["conc_schedules"]*2
+	states += extra["deep_histories"] + extra["conc_schedules"] + extra["redeliver_histories"]
+	trans += extra["deep_histories"]*8 + extra["conc_schedules"]*2 + extra["redeliver_histories"]*6
 	run.Set("states", states)
 	run.Set("transitions", trans)
 	run.Set("traces_validated_against_impl", trans)
